@@ -40,4 +40,87 @@ mod verif_kani {
         kani::cover!(detected == Some("flac"));
         kani::cover!(detected.is_none());
     }
+
+    // ---- C35: read-granularity independence of sniffing ----
+    struct Pieces<'a> { data: &'a [u8], pos: usize }
+    impl<'a> Read for Pieces<'a> {
+        fn read(&mut self, buf: &mut [u8]) -> std::io::Result<usize> {
+            let left = self.data.len() - self.pos;
+            if left == 0 || buf.is_empty() { return Ok(0); }
+            let max = if buf.len() < left { buf.len() } else { left };
+            let n: usize = kani::any();
+            kani::assume(n >= 1 && n <= max);
+            let mut i = 0; while i < n { buf[i] = self.data[self.pos + i]; i += 1; }
+            self.pos += n;
+            Ok(n)
+        }
+    }
+    impl<'a> Seek for Pieces<'a> {
+        fn seek(&mut self, p: std::io::SeekFrom) -> std::io::Result<u64> {
+            match p {
+                std::io::SeekFrom::Start(s) => { self.pos = if (s as usize) < self.data.len() { s as usize } else { self.data.len() }; }
+                _ => { kani::assume(false); }
+            }
+            Ok(self.pos as u64)
+        }
+    }
+
+    #[kani::proof]
+    #[kani::unwind(18)]
+    fn sniff_independent_of_piece_size() {
+        let data: [u8; 16] = kani::any();
+        // keep the ID3 branch (extra seek + read_exact) out of this harness
+        kani::assume(!(data[0] == b'I' && data[1] == b'D' && data[2] == b'3'));
+        let mut whole = Cursor::new(&data[..]);
+        let mut pieces = Pieces { data: &data[..], pos: 0 };
+        let a = container_from_stream(&mut whole);
+        let b = container_from_stream(&mut pieces);
+        assert!(a == b);
+    }
+
+    // ---- replay slot ----
+    /// Test generated for harness `jumbf_io::verif_kani::sniff_independent_of_piece_size` 
+    ///
+    /// Check for `assertion`: "assertion failed: a == b"
+    
+    #[test]
+    fn kani_concrete_playback_sniff_independent_of_piece_size_10860241446886693177() {
+        let concrete_vals: Vec<Vec<u8>> = vec![
+            // 137
+            vec![137],
+            // 80
+            vec![80],
+            // 78
+            vec![78],
+            // 71
+            vec![71],
+            // 13
+            vec![13],
+            // 10
+            vec![10],
+            // 26
+            vec![26],
+            // 10
+            vec![10],
+            // 13
+            vec![13],
+            // 10
+            vec![10],
+            // 135
+            vec![135],
+            // 10
+            vec![10],
+            // 0
+            vec![0],
+            // 0
+            vec![0],
+            // 0
+            vec![0],
+            // 0
+            vec![0],
+            // 1ul
+            vec![1, 0, 0, 0, 0, 0, 0, 0],
+        ];
+        kani::concrete_playback_run(concrete_vals, sniff_independent_of_piece_size);
+    }
 }
